@@ -80,7 +80,7 @@ def build(case):
     if dt_ is not None:
         # the documented spellings of a storage type: the type, its name, its short code, a numpy dtype object
         dt_ = [dt_, np.dtype(dt_).name, np.dtype(dt_).str.lstrip("<=|"), np.dtype(dt_)][case["seed"] % 4]
-    f = df.Field(mesh, nvdim=case["k"], value=arr, dtype=dt_, valid=valid,
+    f = df.Field(mesh, nvdim=case["k"], value=np.array(arr, copy=True), dtype=dt_, valid=np.array(valid, copy=True),
                  unit=case["unit"], **kw)
     return mesh, f, arr, valid
 
